@@ -90,8 +90,12 @@ META = {
 BUILTIN = ["huber", "pseudohuber", "cauchy", "softlone", "arctan", "tolerant", "scale"]
 CLS = {"huber": "Huber", "pseudohuber": "PseudoHuber", "cauchy": "Cauchy", "softlone": "SoftLOne",
        "arctan": "Arctan", "tolerant": "Tolerant", "scale": "Scale"}
-DT = {"float64": torch.float64, "float32": torch.float32}
-TINY = {"float64": 2.0 ** -1020, "float32": 2.0 ** -124}
+DT = {"float64": torch.float64, "float32": torch.float32, "float16": torch.float16, "bfloat16": torch.bfloat16}
+TINY = {"float64": 2.0 ** -1020, "float32": 2.0 ** -124, "float16": 2.0 ** -22, "bfloat16": 2.0 ** -124}
+# machine epsilons; for the two 16-bit formats a quarter of it, so that the framework's 64*eps is 16 ulp there (DESIGN: never
+# tighter than 16 ulp — 64 ulp of bfloat16 would be 50 %)
+EPSD = {"float64": 2.0 ** -52, "float32": 2.0 ** -23, "float16": 2.0 ** -12, "bfloat16": 2.0 ** -9}
+HALVES = ("float16", "bfloat16")
 TOLK = 64.0
 
 
@@ -207,10 +211,56 @@ def user_kernel(form, c):
     return UserKernel()
 
 
+class RetKernel(nn.Module):
+    """user kernel rho(x) = x that RETURNS ITS ARGUMENT (or a view of it) — lesson 31: nobody may write into what it returned"""
+
+    def __init__(self, how):
+        super().__init__()
+        self.how = how
+        self.armed = False
+
+    def forward(self, input):
+        if self.armed:
+            raise RuntimeError("user kernel callback raises (armed by the harness)")
+        return input if self.how == "ret-input" else input[...]
+
+
+PROP_ATTRS = {"huber": ("delta", "delta2"), "pseudohuber": ("delta2",), "cauchy": ("delta2",), "softlone": ("delta1", "delta2"),
+              "arctan": ("delta2",), "tolerant": ("a", "b"), "scale": ("delta",)}
+
+
+def prop_kernel(kind, p):
+    """lesson 33: a user subclass of a shipped kernel whose PARAMETERS are properties computed from private state (`_p`, which the
+    caller may change between calls); the inherited forward must read them through the public names every time"""
+    Base = getattr(ppk(), CLS[kind])
+
+    def getter(name):
+        if name in ("delta", "delta1", "a"):
+            return lambda self: self._p[0]
+        if name == "delta2":
+            return lambda self: self._p[0] ** 2
+        return lambda self: self._p[1]           # b
+
+    body = {name: property(getter(name)) for name in PROP_ATTRS[kind]}
+
+    def __init__(self, *params):
+        nn.Module.__init__(self)
+        self._p = list(params)
+    body["__init__"] = __init__
+    Cls_ = type(f"Prop{CLS[kind]}", (Base,), body)
+    return Cls_(*(p[:2] if kind == "tolerant" else p[:1]))
+
+
 def build_kernel(spec):
     k, p = spec["kind"], spec["p"]
+    if k == "poly" and spec.get("form") in ("ret-input", "ret-view"):
+        return RetKernel(spec["form"])
     if k == "poly":
         return LinKernel(p[0]) if spec.get("affine") else user_kernel(spec.get("form"), p)
+    if spec.get("default"):          # every optional argument OMITTED (lesson 29): documented defaults delta = 1, a = 1, b = -1
+        return getattr(ppk(), CLS[k])()
+    if spec.get("prop"):
+        return prop_kernel(k, p)
     K = ppk()
     if k == "tolerant":
         return K.Tolerant(a=p[0], b=p[1]) if spec.get("kwargs") else K.Tolerant(p[0], p[1])
@@ -389,7 +439,7 @@ def own_scale(spec) -> float:
 
 MULT = [0.0, 1e-30, 1e-12, 1e-6, 1e-3, 0.1, 0.25, 0.5, 0.9, 0.99, 0.999, 1 - 2.0 ** -20, 1 - 2.0 ** -50, 1.0, 1 + 2.0 ** -50,
         1 + 2.0 ** -20, 1.001, 1.01, 1.1, 2.0, 4.0, 10.0, 1e3, 1e6, 1e12, 1e20]
-XMAX = {"float64": 1e300, "float32": 1e37}        # "all non-negative input": up to just below overflow
+XMAX = {"float64": 1e300, "float32": 1e37, "float16": 6e4, "bfloat16": 1e37}        # "all non-negative input": up to just below overflow
 
 
 def x_cap(spec, dtn) -> float:
@@ -409,7 +459,7 @@ def x_cap(spec, dtn) -> float:
     return big
 
 
-MINNORMAL = {"float64": 2.0 ** -1022, "float32": 2.0 ** -126}
+MINNORMAL = {"float64": 2.0 ** -1022, "float32": 2.0 ** -126, "float16": 2.0 ** -14, "bfloat16": 2.0 ** -126}
 
 
 def x_floor(spec, dtn) -> float:
@@ -452,7 +502,9 @@ def kernel_inputs(case):
     spec, dtn = case["spec"], case["dtype"]
     n = int(math.prod(case["shape"]))
     s0 = own_scale(spec)
-    eps = common.EPS[dtn]
+    eps = EPSD[dtn]
+    if case.get("vals") is not None:
+        return torch.tensor(case["vals"]).to(DT[dtn]) if dtn in DT else torch.tensor(case["vals"], dtype=getattr(torch, dtn))
     if case.get("usweep"):
         # Tolerant: u = (x - a)/b on both sides of softplus' threshold 50, geometrically, up to u(0) = a/|b|
         a_, b_ = spec["p"][0], spec["p"][1]
@@ -498,7 +550,7 @@ def small_shape(rng, maxrank=3, ext=(1, 2, 3, 4)):
 def check_kernel(ctx: Ctx, case, kobj=None):
     """runs the real kernel on the case, applies the oracles; returns (x, y) or None if it raised"""
     spec, dtn = case["spec"], case["dtype"]
-    eps = common.EPS[dtn]
+    eps = EPSD[dtn]
     x = kernel_inputs(case)
     kobj = kobj if kobj is not None else build_kernel(spec)
     mon = common.PurityMonitor()
@@ -521,7 +573,7 @@ def check_kernel(ctx: Ctx, case, kobj=None):
 
 def kernel_value_oracle(ctx, case, spec, dtn, x, y):
     """documented closed form (mpmath), rho(0) = 0, finite, non-decreasing — on the real output y = kernel(x)"""
-    eps = common.EPS[dtn]
+    eps = EPSD[dtn]
     xs = x.detach().flatten().double().tolist()
     ys = y.detach().flatten().double().tolist()
     bad = None
@@ -549,7 +601,7 @@ def kernel_value_oracle(ctx, case, spec, dtn, x, y):
 
 def compare_kernel(ctx, case, x, y, rep):
     spec, dtn = case["spec"], case["dtype"]
-    eps = common.EPS[dtn]
+    eps = EPSD[dtn]
     st, toks = common.parse_reply(rep)
     if st != "ok":
         ctx.disagree("kernel", case, f"model rejects ({toks}) a non-negative input the implementation accepts")
@@ -573,7 +625,7 @@ def kernel_line(case, x):
 def huber_threshold_oracle(ctx, case):
     """value and slope of the real Huber on both sides of and exactly at delta^2 (autograd slope)"""
     d, dtn = case["spec"]["p"][0], case["dtype"]
-    eps = common.EPS[dtn]
+    eps = EPSD[dtn]
     kobj = build_kernel(case["spec"])
     t = torch.tensor(d * d, dtype=DT[dtn])
     pts = [t]
@@ -607,7 +659,7 @@ def run_kernel(ctx: Ctx, cases):
                        case["data_seed"] % 7), True)
         ctx.count(f"kernel.{spec['kind']}.{case['dtype']}")
         ctx.count(f"kernel.rank{len(case['shape'])}")
-        if spec["kind"] == "huber":
+        if spec["kind"] == "huber" and case["dtype"] not in HALVES:
             guard(ctx, case, lambda: huber_threshold_oracle(ctx, case))
         if res is None:
             continue
@@ -700,7 +752,7 @@ def regime_batch(case):
         cap = min(cap, 1e17)
     else:
         cap = min(cap, 1e140)
-    eps = common.EPS[dtn]
+    eps = EPSD[dtn]
     norm = {"zero": 0.0, "tiny": 1e-15 if dtn == "float32" else 1e-150, "below": s0 * (1 - 8 * eps), "threshold": s0, "above": s0 * (1 + 8 * eps),
             "ordinary": s0 * 0.37, "large": min(s0 * 1e3, cap), "huge": cap}
     if spec["kind"] == "poly":
@@ -750,11 +802,11 @@ def corrector_data(case):
             c, nv = 1.0, s0 * math.sqrt(sw[(i + case.get("sweep_off", 0)) % len(sw)])
         if nv != 0.0:
             # |R_i|^2 must stay finite in the dtype (d <= 6 components): "all residual tensors" up to there
-            nv = min(max(nv, 1e-15), 1e17) if dtn == "float32" else min(nv, 1e140)
+            nv = min(max(nv, 1e-15), 1e17) if dtn in ("float32", "bfloat16") else (min(max(nv, 2e-2), 40.0) if dtn == "float16" else min(nv, 1e140))
             if spec["kind"] != "poly":
                 nv = min(nv, 0.5 * math.sqrt(x_cap(spec, dtn) / d))
             if spec["kind"] == "poly":          # x^3 of the user polynomial must stay finite
-                nv = min(nv, 1e5 if dtn == "float32" else 1e40)
+                nv = min(nv, 1e40 if dtn == "float64" else (3.0 if dtn == "float16" else 1e5))
         if "norm_cap" in case and nv > case["norm_cap"] * s0:
             nv = case["norm_cap"] * s0 * rng.uniform(0.3, 1.0)
         dirv = common.rand_dir(rng, d)
@@ -852,7 +904,7 @@ def d2_noise(spec, x: float) -> float:
     return 0.0
 
 
-DENORM = {"float64": 2.0 ** -1074, "float32": 2.0 ** -149}
+DENORM = {"float64": 2.0 ** -1074, "float32": 2.0 ** -149, "float16": 2.0 ** -24, "bfloat16": 2.0 ** -133}
 
 
 def g1_floor(spec, dtn) -> float:
@@ -868,7 +920,7 @@ def g1_floor(spec, dtn) -> float:
     return 4.0 * DENORM[dtn] / c
 
 
-SQRT_TINY = {"float64": 2.0 ** -536, "float32": 2.0 ** -74}     # sqrt of the smallest subnormal (rho' underflow)
+SQRT_TINY = {"float64": 2.0 ** -536, "float32": 2.0 ** -74, "float16": 2.0 ** -12, "bfloat16": 2.0 ** -66}     # sqrt of the smallest subnormal (rho' underflow)
 
 
 def cfail(ctx, case, what):
@@ -892,7 +944,7 @@ def ld(t):
 def corrector_oracles(ctx: Ctx, case, R, J, Rc, Jc):
     """the property's own statement on the real outputs (Rc, Jc) — independent of the Lean model"""
     spec, dtn, d, p = case["spec"], case["dtype"], case["d"], case["p"]
-    eps = common.EPS[dtn]
+    eps = EPSD[dtn]
     N = int(math.prod(case["batch"]))
     Rn, Jn = ld(R).reshape(N, d), ld(J).reshape(N, d, p)
     Rcn, Jcn = ld(Rc).reshape(N, d), ld(Jc).reshape(N, d, p)
@@ -952,7 +1004,7 @@ def corrector_oracles(ctx: Ctx, case, R, J, Rc, Jc):
 def check_corrector(ctx: Ctx, case, cobj=None, fobj=None):
     """run the real corrector; oracles; returns (R, J, Rc, Jc) or None"""
     spec, dtn, d, p = case["spec"], case["dtype"], case["d"], case["p"]
-    eps = common.EPS[dtn]
+    eps = EPSD[dtn]
     R, J = corrector_data(case)
     N = int(math.prod(case["batch"]))
     if cobj is None:
@@ -1010,7 +1062,7 @@ def corrector_line(case, R, J):
 def compare_corrector(ctx: Ctx, case, R, J, Rc, Jc, rep, stream=None):
     spec, dtn, d, p = case["spec"], case["dtype"], case["d"], case["p"]
     stream = stream or case["which"]
-    eps = common.EPS[dtn]
+    eps = EPSD[dtn]
     N = int(math.prod(case["batch"]))
     nums = reply_floats(rep)
     nR, nJ = N * d, N * d * p
@@ -1119,6 +1171,8 @@ class LinModel(nn.Module):
         self.theta = nn.Parameter(theta.clone())
 
     def forward(self, *ys):
+        if getattr(self, "ret_param", False):
+            return self.theta.view(1, -1)          # lesson 31: the model returns (a view of) its own parameter as the residual
         outs = tuple((M @ self.theta + y).view(sh) for M, y, sh in zip(self.Ms, ys, self.shapes))
         return outs if len(outs) > 1 else outs[0]
 
@@ -1179,6 +1233,7 @@ def weight_arg(case, shapes, dt):
 def build_opt(case, Ms, shapes, theta, kernel, corrector):
     import pypose as pp
     model = LinModel(Ms, shapes, theta)
+    model.ret_param = bool(case.get("identity_model"))
     rec = Recorder()
     wt = weight_arg(case, shapes, theta.dtype) if case.get("weight", {}).get("where") == "ctor" else None
     kw = {"vectorize": case.get("vectorize", True)}
@@ -1189,9 +1244,12 @@ def build_opt(case, Ms, shapes, theta, kernel, corrector):
     else:
         st = case.get("strategy", "constant")
         S = pp.optim.strategy
-        strat = {"constant": lambda: S.Constant(damping=case["damping"]), "adaptive": lambda: S.Adaptive(damping=case["damping"]),
-                 "trust": lambda: S.TrustRegion(radius=1.0 / case["damping"])}[st]()
-        opt = pp.optim.LM(model, solver=rec, kernel=kernel, corrector=corrector, strategy=strat, **case.get("lm", {}), **kw)
+        if st == "default":          # the optional argument OMITTED (lesson 29): every LM then builds its own TrustRegion()
+            opt = pp.optim.LM(model, solver=rec, kernel=kernel, corrector=corrector, **case.get("lm", {}), **kw)
+        else:
+            strat = {"constant": lambda: S.Constant(damping=case["damping"]), "adaptive": lambda: S.Adaptive(damping=case["damping"]),
+                     "trust": lambda: S.TrustRegion(radius=1.0 / case["damping"])}[st]()
+            opt = pp.optim.LM(model, solver=rec, kernel=kernel, corrector=corrector, strategy=strat, **case.get("lm", {}), **kw)
     return model, opt, rec
 
 
@@ -1233,6 +1291,10 @@ def select_setup(case):
     ys = []
     for r in range(NSTEPS):       # several steps with different targets on the same optimiser object
         ys.append([torch.tensor([rng.gauss(0, 1) * rng.choice([0.0, 0.01, 1.0, 1.0, 10.0]) for _ in range(n * d)], dtype=dt) for n, d in shapes])
+    if case.get("identity_model"):          # residual = the parameter itself: M = I; an offset only through `target`
+        Ms = [torch.eye(p, dtype=dt)]
+        if not case.get("use_target"):
+            ys = [[torch.zeros(p, dtype=dt)] for _ in range(NSTEPS)]
     dthetas = [torch.tensor([rng.gauss(0, 0.3) for _ in range(p)], dtype=dt) for _ in range(NSTEPS)]
     kpool, kernel, corrector = select_objects(case)
     model, opt, rec = build_opt(case, Ms, shapes, theta, kernel, corrector)
@@ -1336,6 +1398,10 @@ def select_plan(case):
     ys = []
     for r in range(NSTEPS):
         ys.append([torch.tensor([rng.gauss(0, 1) * rng.choice([0.0, 0.01, 1.0, 1.0, 10.0]) for _ in range(n * d)], dtype=dt) for n, d in shapes])
+    if case.get("identity_model"):          # residual = the parameter itself: M = I; an offset only through `target`
+        Ms = [torch.eye(p, dtype=dt)]
+        if not case.get("use_target"):
+            ys = [[torch.zeros(p, dtype=dt)] for _ in range(NSTEPS)]
     dthetas = [torch.tensor([rng.gauss(0, 0.3) for _ in range(p)], dtype=dt) for _ in range(NSTEPS)]
     out = []
     for step in range(NSTEPS):
@@ -1343,7 +1409,7 @@ def select_plan(case):
             theta = theta + dthetas[1]
         elif step >= 2:
             theta = theta * 0.5 - dthetas[step]
-            Ms = [M * 1.25 for M in Ms]
+            Ms = Ms if case.get("identity_model") else [M * 1.25 for M in Ms]
         out.append((theta.clone(), [t.clone() for t in ys[step]], [M.clone() for M in Ms], shapes))
     return out
 
@@ -1352,7 +1418,7 @@ def check_select(ctx: Ctx, case, pre=None):
     """one optimiser configuration, NSTEPS steps on the same object; between steps the caller updates its targets and the
     model parameters in place; returns nothing (records into ctx)"""
     nres, dtn = len(case["shapes"]), case["dtype"]
-    eps = common.EPS[dtn]
+    eps = EPSD[dtn]
     rep = pre[0] if pre is not None else ctx.driver.run([select_line(case)])[0]
     lk, sc = parse_select(rep, nres)
     try:
@@ -1378,7 +1444,7 @@ def check_select(ctx: Ctx, case, pre=None):
             y = [t.clone() for t in ys[step]]       # new tensors
             with torch.no_grad():
                 model.theta.mul_(0.5).sub_(dthetas[step])
-                for M in Ms:                          # the model's own constants change in place too
+                for M in ([] if case.get("identity_model") else Ms):          # the model's own constants change in place too
                     M.mul_(1.25)
         y_before = [t.clone() for t in y]
         theta0 = model.theta.detach().clone()
@@ -1649,9 +1715,19 @@ def gen_select_case(rng):
             carg = ["many", [None if v is None else 2 * v + rng.randrange(2) for v in karg[1]]]
     else:
         carg = mk(2 * nk, True)
-    return {"stream": "select", "opt": rng.choice(["GN", "LM"]), "dtype": rng.choice(["float64", "float64", "float32"]),
+    case = {"stream": "select", "opt": rng.choice(["GN", "LM"]), "dtype": rng.choice(["float64", "float64", "float32"]),
             "p": rng.randint(1, 3), "shapes": shapes, "kspecs": kspecs, "karg": karg, "carg": carg, "tuple": rng.random() < 0.3,
             "damping": rng.choice([1e-6, 1e-3, 1.0]), "data_seed": rng.randrange(1 << 30), **select_extras(rng, nres)}
+    if rng.random() < 0.1:          # lesson 31: the model returns (a view of) its own parameter as the single one-item residual
+        case.update({"shapes": [[1, case["p"]]], "identity_model": True})
+        if rng.random() < 0.5:
+            case["use_target"] = True
+        for key in ("karg", "carg"):
+            if case[key] is not None and case[key][0] == "many":
+                case[key] = ["many", case[key][1][:1] or [None]]
+        if case.get("weight"):
+            case["weight"]["w"] = case["weight"]["w"][:1]
+    return case
 
 
 def select_extras(rng, nres, full=False):
@@ -1665,7 +1741,7 @@ def select_extras(rng, nres, full=False):
     if rng.random() < 0.3:
         ex["weight"] = {"where": rng.choice(["ctor", "step"]), "w": [rng.choice([0.5, 2.0, 4.0, 1.0]) for _ in range(nres)]}
     if rng.random() < 0.5:
-        ex["strategy"] = rng.choice(["constant", "adaptive", "trust"])
+        ex["strategy"] = rng.choice(["constant", "adaptive", "trust", "default"])
     if rng.random() < 0.3:
         ex["lm"] = {"min": rng.choice([1e-6, 1e-3]), "max": rng.choice([1e32, 1e3]), "reject": rng.choice([0, 1, 16])}
     if rng.random() < 0.3:
@@ -1926,8 +2002,12 @@ def check_history(ctx: Ctx, case, lines=None, metas=None):
         cc = {**clean(case), "call": ci}
         O = get_obj(call.get("obj", 0))
         which, spec, obj, kobj = O["which"], O["spec"], O["obj"], O["kobj"]
+        if call.get("kparams") is not None and hasattr(kobj, "_p"):
+            # the caller changes the private state behind the kernel's parameter properties: every later call must follow it
+            kobj._p = list(call["kparams"][:len(kobj._p)])
+            O["spec"] = spec = {**spec, "p": list(call["kparams"])}
         dtn = call["dtype"]
-        eps = common.EPS[dtn]
+        eps = EPSD[dtn]
         gmode = call.get("gmode", "no_grad" if call.get("nograd") else "plain")
         kwm = call.get("kw", True)
         ref_in = history_call_data(which, spec, call)
@@ -2264,8 +2344,8 @@ def mode_order_cases():
     return out
 
 
-LARGE_SIZES_QUICK = [16384, 16385, 65536, 65537]
-LARGE_SIZES_THOROUGH = [2 ** k + e for k in range(10, 17) for e in (-1, 0, 1)] + [131073]
+LARGE_SIZES_QUICK = [16384, 16385, 65536, 65537, 2 ** 18 + 37]
+LARGE_SIZES_THOROUGH = [2 ** k + e for k in range(10, 17) for e in (-1, 0, 1)] + [131073, 2 ** 18 + 1, 2 ** 18 + 37, 2 ** 20 + 1]
 
 
 def large_inputs(which, spec, dtn, n, d, p, seed):
@@ -2297,16 +2377,17 @@ def run_large(ctx: Ctx):
     sizes = LARGE_SIZES_QUICK if ctx.quick else LARGE_SIZES_THOROUGH
     jobs = []
     for n in sizes:
-        for kind in (BUILTIN if n in (16385, 65537) or not ctx.quick else [rng.choice(BUILTIN)]):
+        for kind in (BUILTIN if n in (16385, 65537, 2 ** 18 + 37, 2 ** 20 + 1) or not ctx.quick else [rng.choice(BUILTIN)]):
             jobs.append(("kernel", gen_spec(rng, kind) if kind != "tolerant" else {"kind": kind, "p": [1.0, -0.1, 0.0]}, n))
         for which in ("fast", "triggs"):
-            for spec in ({"kind": "cauchy", "p": [0.7, 0.0, 0.0]}, {"kind": "huber", "p": [1.0, 0.0, 0.0]},
-                         {"kind": "poly", "p": [1.0, 0.5, 0.0], "form": rng.choice(USER_FORMS)}):
+            cspecs = [{"kind": "cauchy", "p": [0.7, 0.0, 0.0]}, {"kind": "huber", "p": [1.0, 0.0, 0.0]},
+                      {"kind": "poly", "p": [1.0, 0.5, 0.0], "form": rng.choice(USER_FORMS)}]
+            for spec in (cspecs if n < 2 ** 17 else cspecs[2:] if ctx.quick else cspecs):
                 jobs.append((which, spec, n))
     lines, metas = [], []
     for which, spec, n in jobs:
         dtn = rng.choice(["float64", "float32"])
-        eps = common.EPS[dtn]
+        eps = EPSD[dtn]
         d, p = (1, 1) if which == "kernel" else (rng.choice([1, 2, 3]), rng.choice([1, 2]))
         case = {"stream": "large", "which": which, "spec": spec, "dtype": dtn, "n": n, "d": d, "p": p, "data_seed": rng.randrange(1 << 30)}
         shapes = [[n]] + [[a, n // a] for a in (16, 256) if n % a == 0] + [[1, n]]
@@ -2347,7 +2428,9 @@ def run_large(ctx: Ctx):
                                        f"{int((diff > 0).nonzero()[0])}, max |diff| {float(diff.max()):.3e}")
                         return
             # single items: first, LAST, random
-            idx = sorted({0, n - 1, n - 2} | {rng.randrange(n) for _ in range(5)})
+            # first, LAST, random, and the first / last element of the tail n % 2^k for several block sizes (lesson 34)
+            idx = sorted({0, n - 1, n - 2} | {rng.randrange(n) for _ in range(5)}
+                         | {(n // 2 ** k_) * 2 ** k_ for k_ in (8, 10, 14, 16, 18) if (n // 2 ** k_) * 2 ** k_ < n})
             for i in idx:
                 if which == "kernel":
                     alone = call((tin[0][i:i + 1],))
@@ -2383,6 +2466,151 @@ def run_large(ctx: Ctx):
             compare_kernel(ctx, meta[0], meta[1], meta[2], rep)
         else:
             compare_corrector(ctx, meta[0], meta[1], meta[2], meta[3], meta[4], rep, stream="large")
+
+
+# ----------------------------------------------------------------------------- round-5 lessons (29-36)
+
+HALF_SPECS = [{"kind": "huber", "p": [1.0, 0, 0]}, {"kind": "huber", "p": [0.5, 0, 0]}, {"kind": "pseudohuber", "p": [2.0, 0, 0]},
+              {"kind": "cauchy", "p": [1.0, 0, 0]}, {"kind": "softlone", "p": [1.0, 0, 0]}, {"kind": "arctan", "p": [0.5, 0, 0]},
+              {"kind": "tolerant", "p": [1.0, -0.25, 0]}, {"kind": "tolerant", "p": [2.0, -1.0, 0]}, {"kind": "scale", "p": [0.5, 0, 0]}]
+HALF_VALS = [0.0, 2.0 ** -9, 0.0078125, 0.0625, 0.25, 0.4375, 0.5, 1.0 - 2.0 ** -7, 1.0, 1.0 + 2.0 ** -7, 1.5, 2.0, 3.96875, 4.0, 5.0, 17.0, 30.0]
+HALF_ROWS3 = [[0.0, 0.0, 0.0], [0.046875, 0.0, 0.03125], [0.5, -0.25, 0.25], [1.0, 0.0, 0.0], [0.0, -0.5, 0.0], [0.75, 1.0, 0.0],
+              [1.0, 1.0, -0.5], [2.0, -1.5, 1.0]]
+
+
+def narrow_dtype_corpus():
+    """lesson 30: every floating dtype the entry points accept — float16 and bfloat16 inputs (kernels and both correctors), value AND
+    dtype of the result (16 ulp of the 16-bit format, the result must keep the input dtype)"""
+    K, Cr, H = [], [], []
+    for dtn in HALVES:
+        for spec in HALF_SPECS:
+            sp = {"kind": spec["kind"], "p": [float(v) for v in spec["p"]]}
+            K.append({"stream": "kernel", "spec": sp, "dtype": dtn, "shape": [len(HALF_VALS)], "data_seed": 1, "vals": HALF_VALS})
+        for which in ("fast", "triggs"):
+            for sp in ({"kind": "huber", "p": [1.0, 0.0, 0.0]}, {"kind": "cauchy", "p": [1.0, 0.0, 0.0]}, {"kind": "tolerant", "p": [1.0, -0.25, 0.0]},
+                       {"kind": "scale", "p": [0.5, 0.0, 0.0]}, {"kind": "poly", "p": [1.0, 0.25, 0.0], "form": "sub:Scale"},
+                       {"kind": "poly", "p": [1.0, 0.0, 0.0], "affine": True, "form": "ret-input"}):
+                Cr.append({"stream": which, "which": which, "dtype": dtn, "batch": [2, 4], "d": 3, "p": 2, "data_seed": 31, "nograd": which == "fast",
+                           "force_zero_row": False, "rows": HALF_ROWS3, "spec": sp, **({"regime": "convex"} if sp["kind"] == "poly" and not sp.get("affine") else {})})
+        for which, sp in (("kernel", {"kind": "cauchy", "p": [1.0, 0.0, 0.0]}), ("triggs", {"kind": "huber", "p": [1.0, 0.0, 0.0]})):
+            calls = []
+            for ci, (gm, d2) in enumerate((("plain", dtn), ("no_grad", "float32"), ("req_R", dtn), ("plain", "float64"), ("graph", dtn))):
+                call = {"obj": 0, "dtype": d2, "layout": "contig" if ci % 2 == 0 else "strided", "data_seed": 8100 + ci, "zero": True, "gmode": gm,
+                        "kw": True, "ptype": "tensor", "mutate_out": bool(ci % 2), "norm_cap_half": True}
+                if which == "kernel":
+                    call["shape"] = [5]
+                else:
+                    call["batch"], call["d"], call["p"] = [3], 2, 2
+                calls.append(call)
+            H.append({"stream": "history", "which": which, "spec": sp, "calls": calls, "data_seed": 6161})
+    return K, Cr, H
+
+
+def run_int_kernels(ctx: Ctx):
+    """lesson 30, integer inputs (not documented — differential expectation read off the unchanged tree): the six kernels without
+    index assignment promote int64 / int32 / uint8 input to the default float dtype and return the closed form there; Huber
+    (`output[mask] = input[mask]` into `zeros_like(input)`) refuses integers — counted, not judged."""
+    xs = [0, 1, 2, 5, 17, 100]
+    for kind in BUILTIN:
+        spec = {"kind": kind, "p": [1.0, -1.0, 0.0] if kind == "tolerant" else [0.5 if kind == "scale" else 1.0, 0.0, 0.0]}
+        for tdt in (torch.int64, torch.int32, torch.uint8):
+            case = {"stream": "int-kernel", "spec": spec, "dtype": str(tdt).replace("torch.", "")}
+            x = torch.tensor(xs, dtype=tdt)
+            kobj = build_kernel(spec)
+            try:
+                y = kobj(x)
+            except Exception as e:
+                ctx.count(f"int-kernel.{kind}.raises.{type(e).__name__}")
+                if kind != "huber":
+                    ctx.fail(case, f"int-input: {CLS[kind]} raises {type(e).__name__} on {case['dtype']} input (the unchanged tree promotes to the default float dtype)")
+                continue
+            ctx.note_case(("int-kernel", kind, case["dtype"]), True)
+            ctx.count(f"int-kernel.{kind}.{str(y.dtype).replace('torch.', '')}")
+            if not torch.equal(x, torch.tensor(xs, dtype=tdt)):
+                ctx.fail(case, f"kernel-mutates: {CLS[kind]} changed its {case['dtype']} input")
+            if y.dtype != torch.get_default_dtype() or tuple(y.shape) != tuple(x.shape):
+                ctx.fail(case, f"int-input: {CLS[kind]} on {case['dtype']} input returns {y.dtype} {tuple(y.shape)}, expected the default float dtype {torch.get_default_dtype()}")
+                continue
+            kernel_value_oracle(ctx, case, spec, "float32", x.double(), y)
+
+
+def sandwich_ops():
+    """every public operation of the two modules, on degenerate shapes too (a single item, all-ones batch, d = 1), with backward passes"""
+    K, C = ppk(), ppc()
+    ops = []
+    kernels = [K.Huber(), K.Huber(0.5), K.PseudoHuber(), K.Cauchy(2.0), K.SoftLOne(), K.Arctan(), K.Tolerant(), K.Tolerant(2.0, -0.5), K.Scale(), K.Scale(0.5),
+               user_kernel("sub:Scale", [1.0, 0.5, 0.0]), RetKernel("ret-input")]
+    for dt in (torch.float64, torch.float32):
+        for shape in ([1], [], [1, 1], [3], [2, 1, 2]):
+            for k in kernels:
+                def kop(k=k, dt=dt, shape=shape):
+                    x = (torch.arange(int(math.prod(shape)) or 1, dtype=dt).reshape(shape) * 0.75 + 0.25).requires_grad_(True)
+                    y = k(x)
+                    y.sum().backward()
+                    with torch.no_grad():
+                        if y is not x and y.untyped_storage().data_ptr() != x.untyped_storage().data_ptr():
+                            y.mul_(0).sub_(7.0)          # the caller overwrites what it got
+                ops.append(kop)
+        for batch, d, p in (([1], 1, 1), ([1], 3, 2), ([1, 1, 1], 2, 1), ([2], 1, 1), ([3, 2], 2, 2)):
+            for k in kernels[2:]:
+                for W in (C.FastTriggs, C.Triggs):
+                    def cop(k=k, W=W, dt=dt, batch=batch, d=d, p=p):
+                        N = int(math.prod(batch))
+                        R = (torch.arange(N * d, dtype=dt).reshape(batch + [d]) * 0.5 + 0.125)
+                        J = torch.ones(N * d, p, dtype=dt) * 0.75
+                        r, j = W(k)(R=R, J=J)
+                        with torch.no_grad():
+                            r.mul_(0).sub_(5.0)
+                            j.mul_(0).add_(9.0)
+                    ops.append(cop)
+    return ops
+
+
+def run_sandwich(ctx: Ctx):
+    """lesson 32: two identical calls of one operation with EVERY other public operation of the modules in between (single-item and
+    batched, both dtypes, forward and backward, outputs overwritten in place) — the two results must be equal bit for bit."""
+    between = sandwich_ops()
+    K = ppk()
+    subjects = []
+    for kind in BUILTIN:
+        spec = {"kind": kind, "p": [1.0, -1.0, 0.0] if kind == "tolerant" else [0.5 if kind == "scale" else 1.0, 0.0, 0.0], "default": kind != "scale"}
+        for shape in ([1], [1, 1], [4]):
+            subjects.append(("kernel", spec, shape, 1, 1))
+    for which in ("fast", "triggs"):
+        for spec in ({"kind": "cauchy", "p": [1.0, 0.0, 0.0], "default": True}, {"kind": "poly", "p": [1.0, 0.5, 0.0], "form": "sub:Huber"},
+                     {"kind": "poly", "p": [1.0, 0.0, 0.0], "affine": True, "form": "ret-input"}):
+            for batch, d, p in (([1], 1, 1), ([1], 3, 2), ([1, 1], 2, 1), ([3], 2, 2)):
+                subjects.append((which, spec, batch, d, p))
+    for si, (which, spec, shape, d, p) in enumerate(subjects):
+        dtn = "float64" if si % 2 else "float32"
+        case = {"stream": "sandwich", "which": which, "spec": spec, "dtype": dtn, "shape": shape, "d": d, "p": p}
+        ctx.note_case(("sandwich", which, spec["kind"], tuple(shape), d, dtn), True)
+        ctx.count(f"sandwich.{which}")
+
+        def body():
+            kobj = build_kernel(spec)
+            obj = kobj if which == "kernel" else build_corrector(which, kobj)
+            n = int(math.prod(shape))
+            if which == "kernel":
+                x = torch.arange(n, dtype=DT[dtn]).reshape(shape) * 0.6 + 0.3
+                call = lambda: (obj(x.clone()).detach().clone(),)
+            else:
+                R = torch.arange(n * d, dtype=DT[dtn]).reshape(list(shape) + [d]) * 0.4 + 0.2
+                J = torch.arange(n * d * p, dtype=DT[dtn]).reshape(n * d, p) * 0.1 - 0.3
+                call = lambda: tuple(t.detach().clone() for t in obj(R=R.clone(), J=J.clone()))
+            first = call()
+            for op in between[si % 3::3]:          # a third of the operations per subject, all of them over three subjects
+                op()
+            second = call()
+            for a, b in zip(first, second):
+                if a.shape != b.shape or not torch.equal(torch.nan_to_num(a, nan=1.5), torch.nan_to_num(b, nan=1.5)):
+                    ctx.fail(case, f"sandwich: {which}({spec['kind']}) on shape {shape} (d={d}) gives a different result after other kernels / correctors "
+                                   f"were used in between (max |diff| {float((a.double() - b.double()).abs().max()) if a.shape == b.shape and a.numel() else float('nan'):.3e})")
+                    return
+            # and the second result is still right (compared with the model through the usual oracle on a fresh object)
+            if which == "kernel" and spec["kind"] != "poly":
+                kernel_value_oracle(ctx, case, spec, dtn, x, second[0])
+        guard(ctx, case, body)
 
 
 # ----------------------------------------------------------------------------- case lists
@@ -2595,6 +2823,53 @@ def corner_corpus():
     for oi, (k0, k1) in enumerate((("cauchy", "huber"), ("tolerant", "scale"), ("arctan", "pseudohuber"))):
         ksp = [{"kind": k0, "p": [float(v) for v in CORPUS_SPECS[k0][1]]}, {"kind": k1, "p": [float(v) for v in CORPUS_SPECS[k1][1]]}]
         H.append(gen_history_case(random.Random(3100 + oi), "fast", ksp[0], ncalls=24, objects=multi_objects(random.Random(3200 + oi), ksp), kernels=ksp))
+    # lesson 29: kernels / correctors built with every optional argument OMITTED, several per class, interleaved with explicitly
+    # parametrised instances of the same classes in one history; lesson 33: the same with parameters as properties
+    for oi in range(2):
+        ksp = [{"kind": "huber", "p": [1.0, 0.0, 0.0], "default": True}, {"kind": "huber", "p": [0.5, 0.0, 0.0]}, {"kind": "huber", "p": [1.0, 0.0, 0.0], "default": True},
+               {"kind": "tolerant", "p": [1.0, -1.0, 0.0], "default": True}, {"kind": "tolerant", "p": [2.0, -0.5, 0.0]}, {"kind": "scale", "p": [1.0, 0.0, 0.0], "default": True},
+               {"kind": "cauchy", "p": [1.0, 0.0, 0.0], "default": True}, {"kind": "cauchy", "p": [3.0, 0.0, 0.0], "prop": True},
+               {"kind": "pseudohuber", "p": [1.0, 0.0, 0.0], "default": True}, {"kind": "softlone", "p": [1.0, 0.0, 0.0], "default": True},
+               {"kind": "arctan", "p": [1.0, 0.0, 0.0], "default": True}, {"kind": "huber", "p": [2.0, 0.0, 0.0], "prop": True},
+               {"kind": "tolerant", "p": [1.5, -0.5, 0.0], "prop": True}, {"kind": "scale", "p": [0.25, 0.0, 0.0], "prop": True}]
+        objs = [{"which": "kernel", "kernel": i} for i in range(len(ksp))] + [{"which": w, "kernel": i} for i in (0, 2, 3, 6, 7, 11, 12) for w in ("fast", "triggs")]
+        H.append(gen_history_case(random.Random(4500 + oi), "kernel", ksp[0], ncalls=70, objects=objs, kernels=ksp))
+    # lesson 33: the caller changes the private state behind the parameter properties between calls
+    for which, kind, plist in (("kernel", "huber", [[1.0], [0.25], [3.0], [1.0]]), ("triggs", "cauchy", [[2.0], [0.5], [2.0]]),
+                               ("fast", "tolerant", [[1.0, -0.5], [3.0, -0.25], [1.0, -0.5]]), ("kernel", "scale", [[1.0], [0.125], [0.5]])):
+        calls = []
+        for ci, pp_ in enumerate(plist * 2):
+            call = {"obj": 0, "dtype": "float64" if ci % 2 else "float32", "layout": "contig", "data_seed": 8800 + ci, "zero": True,
+                    "gmode": ["plain", "no_grad", "req_R"][ci % 3], "kw": True, "ptype": "tensor", "mutate_out": False,
+                    "kparams": [float(v) for v in pp_] + [0.0] * (3 - len(pp_))}
+            if which == "kernel":
+                call["shape"] = [6]
+            else:
+                call["batch"], call["d"], call["p"] = [4], 2, 2
+            calls.append(call)
+        H.append({"stream": "history", "which": which, "spec": {"kind": kind, "p": calls[0]["kparams"], "prop": True}, "calls": calls, "data_seed": 4747})
+    # lesson 31: user kernels that return their argument / a view of it, in every stream
+    for form in ("ret-input", "ret-view"):
+        spec = {"kind": "poly", "p": [1.0, 0.0, 0.0], "affine": True, "form": form}
+        for dtn in ("float32", "float64"):
+            for which in ("fast", "triggs"):
+                Cr.append({"stream": which, "which": which, "dtype": dtn, "batch": [8], "nitems": 8, "d": 3, "p": 2, "data_seed": 51,
+                           "nograd": dtn == "float32", "force_zero_row": False, "regimes": True, "regime": "affine", "spec": spec})
+        H.append(gen_history_case(random.Random(4900 + len(H)), "triggs", spec, ncalls=10))
+        H.append(gen_history_case(random.Random(4950 + len(H)), "fast", spec, ncalls=10))
+    # lesson 36: bands between round-off and a would-be tolerance — tiny residual x huge curvature (2 x rho''/rho' = O(1) although
+    # |R|^2 is far below eps), huge residual x tiny curvature, in both dtypes
+    for dtn in ("float32", "float64"):
+        tiny = [1e-15, 1e-9, 1e-5] if dtn == "float32" else [1e-150, 1e-30, 1e-9]
+        for nv in tiny:
+            x_ = nv * nv
+            Cr.append({"stream": "triggs", "which": "triggs", "dtype": dtn, "batch": [4], "d": 2, "p": 2, "data_seed": 36, "nograd": False,
+                       "force_zero_row": False, "regime": "band-tiny", "spec": {"kind": "poly", "p": [1.0, 0.75 / x_, 0.0], "form": "module"},
+                       "rows": [[nv, 0.0], [0.6 * nv, -0.8 * nv], [0.0, 0.0], [0.5 * nv, 0.5 * nv]]})
+        big = 1e5 if dtn == "float32" else 1e40
+        Cr.append({"stream": "triggs", "which": "triggs", "dtype": dtn, "batch": [3], "d": 2, "p": 1, "data_seed": 37, "nograd": True,
+                   "force_zero_row": False, "regime": "band-huge", "spec": {"kind": "poly", "p": [1.0, 0.5 / (big * big), 0.0], "form": "sub:Cauchy"},
+                   "rows": [[big, 0.0], [0.6 * big, 0.8 * big], [1.0, 1.0]]})
     # exact coincidences (lesson 20): |R_i|^2 == delta^2 bit for bit with a GENERIC direction (3-4-5 triples scaled by powers of two),
     # both signs, next to zero rows and duplicates; x == a for Tolerant
     for dtn in ("float32", "float64"):
@@ -2632,6 +2907,17 @@ def corner_corpus():
                     S.append({"stream": "select", "opt": opt, "dtype": "float64" if (len(S) % 3) else "float32", "p": 2,
                               "shapes": [[2, 3], [1, 1], [3, 2]][:nres], "kspecs": pool, "karg": kf, "carg": cf, "tuple": bool(len(S) % 2),
                               "damping": 1e-3, "data_seed": 600 + len(S), **select_extras(random.Random(5000 + len(S)), nres)})
+    for oi, (opt, kf, cf) in enumerate((("GN", ["one", 0], None), ("LM", ["one", 2], ["one", 5]), ("GN", None, None), ("LM", ["many", [1]], None),
+                                        ("GN", ["one", 3], ["one", 7]), ("LM", ["one", 3], None))):
+        S.append({"stream": "select", "opt": opt, "dtype": "float64" if oi % 2 else "float32", "p": 3, "shapes": [[1, 3]], "identity_model": True,
+                  "kspecs": kspecs + [{"kind": "poly", "p": [1.0, 0.0, 0.0], "affine": True, "form": "ret-input"}], "karg": kf, "carg": cf, "tuple": False,
+                  "damping": 1e-3, "data_seed": 700 + oi, "strategy": "default" if oi % 2 else "constant", **({"use_target": True} if oi >= 3 else {})})
+    kdef = [{"kind": "huber", "p": [1.0, 0.0, 0.0], "default": True}, {"kind": "tolerant", "p": [1.0, -1.0, 0.0], "default": True},
+            {"kind": "cauchy", "p": [1.0, 0.0, 0.0], "default": True}]
+    for oi, (opt, kf, cf) in enumerate((("LM", ["many", [0, 1, 2]], None), ("LM", ["one", 2], None), ("GN", ["many", [2, 0, 1]], ["many", [5, 0, 3]]),
+                                        ("LM", ["many", [1, 1, 1]], ["one", 3]))):
+        S.append({"stream": "select", "opt": opt, "dtype": "float64", "p": 2, "shapes": [[2, 3], [1, 1], [3, 2]], "kspecs": kdef, "karg": kf, "carg": cf,
+                  "tuple": bool(oi % 2), "damping": 1e-3, "data_seed": 750 + oi, "strategy": "default"})
     return K, Ng, Cr, H, S
 
 
@@ -2657,6 +2943,12 @@ def run(ctx: Ctx):
     K, Ng, Cr, H, S = corner_corpus()
     ctx.count("corpus.cases", len(K) + len(Ng) + len(Cr) + len(H) + len(S))
     run_history(ctx, mode_order_cases())          # first: their shape keys must be fresh in the process (lesson 23)
+    run_sandwich(ctx)
+    run_int_kernels(ctx)
+    nK, nCr, nH = narrow_dtype_corpus()
+    run_kernel(ctx, nK)
+    run_corrector(ctx, nCr)
+    run_history(ctx, nH)
     run_ctor(ctx)
     run_kernel(ctx, K)
     run_negative(ctx, Ng)
